@@ -485,9 +485,9 @@ impl BsUnit {
         match self.lines.binary_search_by_key(&pc, |line| line.address) {
             Ok(mut p) => {
                 let mut place = self.find_place_by_idx(p);
-                p -= 1;
 
-                while let Some(next_place) = self.find_place_by_idx(p)
+                while p > 0
+                    && let Some(next_place) = self.find_place_by_idx(p - 1)
                     && u64::from(next_place.address) == pc
                 {
                     place = Some(next_place);
